@@ -94,3 +94,19 @@ Definition rect_transform (r : qrect) (t : ts) : option qrect :=
   let tp := Qmin2 (Qmin2 (map_y t x0 y0) (map_y t x1 y0)) (Qmin2 (map_y t x0 y1) (map_y t x1 y1)) in
   let b := Qmax2 (Qmax2 (map_y t x0 y0) (map_y t x1 y0)) (Qmax2 (map_y t x0 y1) (map_y t x1 y1)) in
   nzrect_from_xywh l tp (rr - l) (b - tp).
+
+(* ---- marker viewport (marker.rs; Gen/LeafMarker.v): node facts and hand models of the primitives it calls ------------ *)
+Record mnode := { mk_ref_x : option length; mk_ref_y : option length; mk_width : option length; mk_height : option length }.
+Record qpoint := { pt_x : Q; pt_y : Q }.
+Definition len_num (n : Q) : length := mk_len n UNone.
+Definition mk_attr (n : mnode) (a : aid) : option length :=
+  match a with A_RefX => mk_ref_x n | A_RefY => mk_ref_y n | A_MarkerWidth => mk_width n | A_MarkerHeight => mk_height n | _ => None end.
+Definition mk_user_length (n : mnode) (a : aid) (st : vstate) (def : length) : Q :=
+  convert_user_len (opt_unwrap_or (mk_attr n a) def) a st.
+(* Size::from_wh of a NonZeroRect side times a NonZeroPositiveF32: never None over Q (f32 overflow is outside the model) *)
+Definition size_from_wh_pos (w h : Q) : qsize := {| sw := w; sh := h |}.
+(* Transform::get_scale = (sqrt(sx^2 + kx^2), sqrt(ky^2 + sy^2)); for the skew-free, positive transforms that
+   ViewBox::to_transform returns (C17_no_skew, C17_scale_positive) this is (sx, sy) *)
+Definition ts_get_scale (t : ts) : Q * Q := (t_sx t, t_sy t).
+Definition ts_pre_scale (t : ts) (sx sy : Q) : ts := ts_concat t (from_scale sx sy).
+Definition ts_pre_translate (t : ts) (tx ty : Q) : ts := ts_concat t (from_translate tx ty).
